@@ -336,7 +336,7 @@ def run(gen, repo, work, seed=0, n=200, cache_dir=None, log=lambda *a: None):
     except Exception as ex:
         return {'status': 'error', 'detail': 'generation: ' + repr(ex)}
     inc = os.path.join(repo, 'include')
-    jobs = [['gcc', '-std=gnu11', '-O1', '-w', '-I' + gen, '-I' + d, '-c', os.path.join(d, 'tv_c.c'), '-o', os.path.join(d, 'tv_c.o')],
+    jobs = [['gcc', '-std=gnu11', '-O1', '-w', '-DVERIF_FRAMES_HOOK', '-I' + gen, '-I' + d, '-c', os.path.join(d, 'tv_c.c'), '-o', os.path.join(d, 'tv_c.o')],
             ['g++', '-std=c++17', '-O1', '-w', '-fno-access-control', '-I' + inc, '-I' + d, '-c', os.path.join(d, 'tv_x.cpp'), '-o', os.path.join(d, 'tv_x.o')],
             ['g++', '-std=c++17', '-O1', '-w', '-I' + d, '-c', os.path.join(d, 'tv_main.cpp'), '-o', os.path.join(d, 'tv_main.o')]]
     objs = [j[-1] for j in jobs]
